@@ -1,0 +1,43 @@
+//! `verif_point!` — schedule/observation points for the external model-checking
+//! harness.  With `--cfg zipora_verif` a point calls the process-global hook in
+//! [`crate::verif_hooks`]; without the cfg the macro expands to nothing.
+
+#[cfg(zipora_verif)]
+#[macro_export]
+#[doc(hidden)]
+macro_rules! verif_point {
+    ($site:expr) => {
+        $crate::verif_hooks::point($site, 0usize, 0usize)
+    };
+    ($site:expr, $a:expr) => {
+        $crate::verif_hooks::point($site, ($a) as usize, 0usize)
+    };
+    ($site:expr, $a:expr, $b:expr) => {
+        $crate::verif_hooks::point($site, ($a) as usize, ($b) as usize)
+    };
+}
+
+#[cfg(not(zipora_verif))]
+#[macro_export]
+#[doc(hidden)]
+macro_rules! verif_point {
+    ($($t:tt)*) => {};
+}
+
+/// Declares a scheduler-visible lock scope on the line *before* a real `lock()`.
+/// Expands to nothing without `--cfg zipora_verif`.
+#[cfg(zipora_verif)]
+#[macro_export]
+#[doc(hidden)]
+macro_rules! verif_lock_scope {
+    ($name:ident, $addr:expr) => {
+        let $name = $crate::verif_hooks::LockScope::enter(($addr) as usize);
+    };
+}
+
+#[cfg(not(zipora_verif))]
+#[macro_export]
+#[doc(hidden)]
+macro_rules! verif_lock_scope {
+    ($($t:tt)*) => {};
+}
